@@ -266,7 +266,7 @@ def pi_setup(ctx):
     calls = {
         "os.fspath": lambda c, a, k: a[0],
         "os.path.expanduser": lambda c, a, k: expanduser(lift(a[0])),
-        "os.path.join": lambda c, a, k: join(lift(a[0]), lift(a[1])),
+        "os.path.join": lambda c, a, k: join(lift(a[0]), lift(a[1])) if len(a) == 2 else join(join(lift(a[0]), lift(a[1])), lift(a[2])),
         "os.path.realpath": lambda c, a, k: realpath(lift(a[0])),
         "os.path.isdir": fs_pred(fs_isdir),
         "os.path.isfile": fs_pred(fs_isfile),
@@ -298,7 +298,14 @@ def pi_setup(ctx):
     loops = {0: LoopSpec(inv=inv, havoc=havoc, havoc_vars=("pdir", "ppdir"))}
     ea = expanduser(pz)
     cwd_eff = getcwd if cwd is None else z3.If(z3.Length(cwd) > 0, cwd, getcwd)
-    expected_abs = z3.If(isabs(ea), ea, join(cwd_eff, ea))
+    # the base directory as a location: a cwd argument that is itself relative is taken relative to the process working directory.
+    # os.path.join / os.getcwd (assumed, instantiated for the terms used): getcwd() is absolute; join(a, b) == b for an absolute b; join(a, b) is absolute for an absolute a
+    base_dir = join(getcwd, cwd_eff)
+    ctx.assume(isabs(getcwd))
+    ctx.assume(z3.Implies(isabs(cwd_eff), base_dir == cwd_eff))
+    ctx.assume(isabs(base_dir))
+    expected_abs = z3.If(isabs(ea), ea, join(base_dir, ea))
+    ctx.assume(z3.Implies(z3.Not(isabs(ea)), isabs(join(base_dir, ea))))
     fs_facts(ctx, expected_abs)
     unfold_nearest(ctx, up(expected_abs))
     watch = {f"count[{c}]": bag.count(c) for c in ALPHA}
@@ -314,7 +321,8 @@ def pi_post(ctx, st, result):
     d = st.data
     self, bag = d["self"], d["bag"]
     ctx.oblige("post", "relative==path-as-given", self.attrs.get("_relative") is d["path"] or (is_z3(self.attrs.get("_relative")) and self.attrs["_relative"] == lift(d["path"])))
-    ctx.oblige("post", "absolute==expanduser(path)-or-join(cwd,..)", lift(self.attrs.get("_absolute", "")) == d["expected_abs"])
+    ctx.oblige("post", "absolute==expanduser(path)-or-join(the base directory as a location,..)", lift(self.attrs.get("_absolute", "")) == d["expected_abs"])
+    ctx.oblige("post", "the-resolved-location-is-absolute(also for a cwd argument that is itself relative)", isabs(lift(self.attrs.get("_absolute", ""))))
     ctx.oblige("post", "cwd==given-or-getcwd", lift(self.attrs.get("_cwd") if self.attrs.get("_cwd") is not None else "") == d["cwd_eff"])
     ctx.oblige("post", "mode-stored-unchanged", self.attrs.get("_mode") is bag)
     ctx.oblige("post", "accepted=>valid_mode", valid_mode(bag))
